@@ -216,7 +216,9 @@ Lemma poll_queue_keeps c x w ready w' :
 Proof.
   destruct x; try contradiction; intros _ H; cbn; destruct (error c); try (destruct ready); cbn; auto.
   all: try (apply in_or_app; left; exact H).
-  all: rewrite pair_get_set_same; apply in_or_app; left; exact H.
+  all: try (rewrite pair_get_set_same; apply in_or_app; left; exact H).
+  all: destruct (connected c); cbn; auto;
+    destruct (existsb (Nat.eqb w) (on_connected c)); auto; apply in_or_app; left; exact H.
 Qed.
 
 (* ---------------------------------------------------------------------- *)
